@@ -433,16 +433,6 @@ package gocql
 //@   requires info != nil
 //@   nonnil_payload value
 
-//@ func unmarshalBigInt
-//@   props C05
-//@   requires info != nil
-//@   nonnil_payload value
-
-//@ func unmarshalInt
-//@   props C05
-//@   requires info != nil
-//@   nonnil_payload value
-
 //@ func unmarshalSmallInt
 //@   props C05
 //@   requires info != nil
@@ -454,21 +444,6 @@ package gocql
 //@   nonnil_payload value
 
 //@ func unmarshalVarint
-//@   props C05
-//@   requires info != nil
-//@   nonnil_payload value
-
-//@ func unmarshalBool
-//@   props C05
-//@   requires info != nil
-//@   nonnil_payload value
-
-//@ func unmarshalFloat
-//@   props C05
-//@   requires info != nil
-//@   nonnil_payload value
-
-//@ func unmarshalDouble
 //@   props C05
 //@   requires info != nil
 //@   nonnil_payload value
@@ -543,11 +518,6 @@ package gocql
 //@   nonnil_payload value
 //@   assume typeis(info, UDTTypeInfo)
 //@   assume forall(k, 0 <= k && k < len(unbox(info, UDTTypeInfo).Elements), unbox(info, UDTTypeInfo).Elements[k].Type != nil)
-//@ func unmarshalIntlike
-//@   props C05
-//@   requires info != nil
-//@   nonnil_payload value
-
 // [bytes] inside a tuple/UDT cell: 4-byte length n, then n bytes (n < 0: null).
 //@ func readBytes
 //@   props C02 C05 C12
@@ -808,6 +778,157 @@ package gocql
 //@   count_calls Write WriteTo Err
 //@   requires ctx != nil
 //@   ensures Write_calls == 0 && WriteTo_calls == 0
+
+// ---------------------------------------------------------------------------
+// marshal.go scalar codecs (C12: bytes are the CQL spec's, §6 of the native protocol
+// spec; C02: decoding gives the value back). Integers: big-endian two's complement of
+// the column width. gocql's documented convention for unsigned Go types: the value is
+// stored as the two's-complement bit pattern of the column width (a uint32 above MaxInt32
+// becomes a negative CQL int) and read back the same way; values that do not fit the
+// width are errors.
+// ---------------------------------------------------------------------------
+
+//@ func encInt
+//@   props C12 C02
+//@   ensures len(result) == 4 && be32(result, 0) == uint32(x)
+//@ func decInt
+//@   props C12 C02
+//@   ensures len(x) == 4 ==> result == int32(be32(x, 0))
+//@   ensures len(x) != 4 ==> result == 0
+//@ func encShort
+//@   props C12 C02
+//@   ensures len(result) == 2 && be16(result, 0) == uint16(x)
+//@ func decShort
+//@   props C12 C02
+//@   ensures len(p) == 2 ==> result == int16(be16(p, 0))
+//@   ensures len(p) != 2 ==> result == 0
+//@ func decTiny
+//@   props C12 C02
+//@   ensures len(p) == 1 ==> result == int8(p[0])
+//@   ensures len(p) != 1 ==> result == 0
+//@ func encBigInt
+//@   props C12 C02
+//@   ensures len(result) == 8 && be64(result, 0) == uint64(x)
+//@ func decBigInt
+//@   props C12 C02
+//@   ensures len(data) == 8 ==> result == int64(be64(data, 0))
+//@   ensures len(data) != 8 ==> result == 0
+//@ func encBool
+//@   props C12 C02
+//@   ensures len(result) == 1 && (result[0] == 1) == v && (result[0] == 0) == !v
+//@ func decBool
+//@   props C12 C02
+//@   ensures len(v) == 0 ==> !result
+//@   ensures len(v) > 0 ==> result == (v[0] != 0)
+// zig-zag (duration): spec "(n >> 63) XOR (n << 1)" and its inverse
+//@ func encIntZigZag
+//@   props C12 C02
+//@   ensures result == uint64((n >> 63) ^ (n << 1))
+//@ func decIntZigZag
+//@   props C12 C02
+//@   ensures result == int64(n >> 1) ^ -int64(n & 1)
+
+//@ func marshalTinyInt
+//@   props C12 C02
+//@   scenario value: int | int64 | int32 | int16 | int8 | uint | uint64 | uint32 | uint16 | uint8
+//@   requires info != nil
+//@   ensures result1 == nil ==> len(result0) == 1 && result0[0] == uint8(unbox(value, $T))
+//@   ensures[@signed] (result1 == nil) == (int64(int8(unbox(value, $T))) == int64(unbox(value, $T)))
+//@   ensures[@unsigned] (result1 == nil) == (uint64(uint8(unbox(value, $T))) == uint64(unbox(value, $T)))
+
+//@ func marshalSmallInt
+//@   props C12 C02
+//@   scenario value: int | int64 | int32 | int16 | int8 | uint | uint64 | uint32 | uint16 | uint8
+//@   requires info != nil
+//@   ensures result1 == nil ==> len(result0) == 2 && be16(result0, 0) == uint16(unbox(value, $T))
+//@   ensures[@signed] (result1 == nil) == (int64(int16(unbox(value, $T))) == int64(unbox(value, $T)))
+//@   ensures[@unsigned] (result1 == nil) == (uint64(uint16(unbox(value, $T))) == uint64(unbox(value, $T)))
+
+//@ func marshalInt
+//@   props C12 C02
+//@   scenario value: int | int64 | int32 | int16 | int8 | uint | uint64 | uint32 | uint16 | uint8
+//@   requires info != nil
+//@   ensures result1 == nil ==> len(result0) == 4 && be32(result0, 0) == uint32(unbox(value, $T))
+//@   ensures[@signed] (result1 == nil) == (int64(int32(unbox(value, $T))) == int64(unbox(value, $T)))
+//@   ensures[@unsigned] (result1 == nil) == (uint64(uint32(unbox(value, $T))) == uint64(unbox(value, $T)))
+
+//@ func marshalBigInt
+//@   props C12 C02
+//@   scenario value: int | int64 | int32 | int16 | int8 | uint | uint64 | uint32 | uint16 | uint8
+//@   requires info != nil
+//@   ensures result1 == nil ==> len(result0) == 8 && be64(result0, 0) == uint64(unbox(value, $T))
+//@   ensures[@signed] result1 == nil
+
+// decoding of the fixed-width integer columns into Go integers (int64Val is the
+// sign-extended column value computed by decInt/decShort/decTiny/decBigInt)
+//@ func unmarshalIntlike
+//@   props C12 C02 C05
+//@   scenario value: *int | *int64 | *int32 | *int16 | *int8 | *uint | *uint64 | *uint32 | *uint16 | *uint8
+//@   count_calls TypeInfo.Type
+//@   requires info != nil
+//@   nonnil_payload value
+//@   ensures[@ptr-signed] (result == nil) == (int64($E(int64Val)) == int64Val)
+//@   ensures[@ptr-signed] result == nil ==> *unbox(value, $T) == $E(int64Val)
+//@   ensures[@ptr-unsigned] result == nil && TypeInfo_Type_calls == 1 && TypeInfo_Type_ret0 == TypeInt ==> uint64(*unbox(value, $T)) == uint64($E(uint32(int64Val)))
+//@   ensures[@ptr-unsigned] result == nil && TypeInfo_Type_calls == 1 && TypeInfo_Type_ret0 == TypeSmallInt ==> uint64(*unbox(value, $T)) == uint64($E(uint16(int64Val)))
+//@   ensures[@ptr-unsigned] result == nil && TypeInfo_Type_calls == 1 && TypeInfo_Type_ret0 == TypeTinyInt ==> uint64(*unbox(value, $T)) == uint64(uint8(int64Val))
+//@   ensures[@ptr-unsigned] result == nil && TypeInfo_Type_calls == 1 && TypeInfo_Type_ret0 == TypeBigInt ==> *unbox(value, $T) == $E(int64Val) && uint64($E(int64Val)) == uint64(int64Val)
+
+//@ func unmarshalInt
+//@   props C12 C02
+//@   scenario value: *int | *int64 | *int32 | *int16 | *int8 | *uint | *uint64 | *uint32 | *uint16 | *uint8
+//@   requires info != nil
+//@   nonnil_payload value
+//@   ensures[@ptr-signed] len(data) == 4 ==> (result == nil) == (int64($E(int32(old(be32(data, 0))))) == int64(int32(old(be32(data, 0)))))
+//@   ensures[@ptr-signed] len(data) == 4 && result == nil ==> *unbox(value, $T) == $E(int32(old(be32(data, 0))))
+
+//@ func unmarshalBigInt
+//@   props C12 C02
+//@   scenario value: *int | *int64 | *int32 | *int16 | *int8 | *uint | *uint64 | *uint32 | *uint16 | *uint8
+//@   requires info != nil
+//@   nonnil_payload value
+//@   ensures[@ptr-signed] len(data) == 8 ==> (result == nil) == (int64($E(int64(old(be64(data, 0))))) == int64(old(be64(data, 0))))
+//@   ensures[@ptr-signed] len(data) == 8 && result == nil ==> *unbox(value, $T) == $E(int64(old(be64(data, 0))))
+
+//@ func marshalBool
+//@   props C12 C02
+//@   scenario value: bool
+//@   requires info != nil
+//@   ensures result1 == nil && len(result0) == 1 && (result0[0] == 1) == unbox(value, bool) && (result0[0] == 0) == !unbox(value, bool)
+
+//@ func unmarshalBool
+//@   props C12 C02
+//@   scenario value: *bool
+//@   requires info != nil
+//@   nonnil_payload value
+//@   ensures result == nil && (len(data) > 0 ==> *unbox(value, *bool) == (data[0] != 0)) && (len(data) == 0 ==> !*unbox(value, *bool))
+
+// float / double: IEEE-754 bit pattern, big endian (floats are opaque bit patterns here, so NaN payloads are covered)
+//@ func marshalFloat
+//@   props C12 C02
+//@   scenario value: float32
+//@   requires info != nil
+//@   ensures result1 == nil && len(result0) == 4 && be32(result0, 0) == bits(unbox(value, float32))
+
+//@ func unmarshalFloat
+//@   props C12 C02
+//@   scenario value: *float32
+//@   requires info != nil
+//@   nonnil_payload value
+//@   ensures result == nil && (len(data) == 4 ==> bits(*unbox(value, *float32)) == be32(data, 0))
+
+//@ func marshalDouble
+//@   props C12 C02
+//@   scenario value: float64
+//@   requires info != nil
+//@   ensures result1 == nil && len(result0) == 8 && be64(result0, 0) == bits(unbox(value, float64))
+
+//@ func unmarshalDouble
+//@   props C12 C02
+//@   scenario value: *float64
+//@   requires info != nil
+//@   nonnil_payload value
+//@   ensures result == nil && (len(data) == 8 ==> bits(*unbox(value, *float64)) == be64(data, 0))
 
 // ---------------------------------------------------------------------------
 // uuid.go (RFC 4122; oracle in /verif/spec/bv.smt2 blocks uuid, hex)
